@@ -35,6 +35,10 @@ static size_t spec_count(struct vx_stack_item it) { return it.type_ == msgpack_c
 /*@FUNC visit_end_array@*/
 /*@FUNC write_string_head@*/
 /*@FUNC write_bin_head@*/
+/*@FUNC visit_begin_object_toolong@*/
+/*@FUNC visit_begin_array_toolong@*/
+/*@FUNC write_string_head_toolong@*/
+/*@FUNC write_bin_head_toolong@*/
 
 #ifdef VX_CBMC
 static struct msgpack_encoder vx_enc;
@@ -52,6 +56,10 @@ void h_begin_object(void) { setup_enc(); int ec = 0; visit_begin_object(&vx_enc,
 void h_begin_array(void) { setup_enc(); int ec = 0; visit_begin_array(&vx_enc, nondet_size(), &ec); }
 void h_end_object(void) { setup_enc(); int ec = 0; visit_end_object(&vx_enc, &ec); }
 void h_end_array(void) { setup_enc(); int ec = 0; visit_end_array(&vx_enc, &ec); }
+void h_begin_object_toolong(void) { setup_enc(); int ec = 0; visit_begin_object_toolong(&vx_enc, nondet_size(), &ec); }
+void h_begin_array_toolong(void) { setup_enc(); int ec = 0; visit_begin_array_toolong(&vx_enc, nondet_size(), &ec); }
+void h_str_head_toolong(void) { vx_sink_n = 0; vx_thrown = 0; write_string_head_toolong(nondet_size()); }
+void h_bin_head_toolong(void) { setup_enc(); vx_thrown = 0; write_bin_head_toolong(&vx_enc, nondet_size()); }
 void h_str_head(void) { vx_sink_n = 0; write_string_head(nondet_size()); }
 void h_bin_head(void) { setup_enc(); write_bin_head(&vx_enc, nondet_size()); }
 #endif
